@@ -103,7 +103,8 @@ PROPS = {
         'trusted': ['protojson decoding (the model starts from the decoded document); net/url.Parse, redis.ParseURL and net.ParseIP are oracles', 'only the fields that take part in loading are modelled (TLS/CA fields, skip_verify, fetch intervals are carried by the real code, not by the model)', 'hook: harness/export/internal/export.go (build tag verif) constructs LocalConfigFile with a path'],
     },
     'C20': {
-        'theorems': ['no_hidden_state', 'trust_decision', 'skip_only_when_requested_and_no_ca', 'identical_settings_share', 'identical_means_same_key', 'superseded_watcher_stops', 'every_user_of_a_file_keeps_its_watcher', 'rotation_reaches_entry', 'rotation_leaves_others', 'unparsable_rotation_ignored', 'pool_and_watchers_locked'],
+        'theorems': ['no_hidden_state', 'trust_decision', 'skip_only_when_requested_and_no_ca', 'identical_settings_share', 'identical_means_same_key', 'superseded_watcher_stops', 'every_user_of_a_file_keeps_its_watcher', 'rotation_reaches_entry', 'rotation_leaves_others', 'unparsable_rotation_ignored', 'pool_and_watchers_locked', 'code_skip_verify_meaning'],
+        'translated': ['BoolStrValue'],
         'level_text': 'PARTIAL. Lean 4 theorems about the trust decision, the pool and the watcher state machine of a hand-written model, tied to the code by real TLS handshakes against servers chaining to the old/new/unconfigured CA; crypto/tls, x509 chain building and timer scheduling are trusted.',
         'trusted': ['crypto/tls and crypto/x509 (handshake, chain building, SystemCertPool)', 'the settings hash (fnv64a) is treated as injective on the settings in play', 'timing: a rotation is judged after 7 refresh intervals', 'the in-place update of RootCAs on a live tls.Config is a data race (C16 known finding)'],
     },
